@@ -291,54 +291,83 @@ def r3_ordering(ctx):
     acfg = CFG(ad.node)
     dup = any(isinstance(acfg.stmt[h], ast.If) and " in self.timepoints" in U(acfg.stmt[h].test) and lab for r in acfg.nodes(lambda s: isinstance(s, ast.Raise)) for h, lab in acfg.if_guards(r))
     ctx.check(dup, "C14.R3", ad, ad.node, "an existing age is refused", "adding an already present age is no longer refused", construct="duplicate age refused")
+    r3b_dataset_mask(ctx)
+
+
+def r3b_dataset_mask(ctx, rid="C14.R3"):
+    """Construction of the padded value tensor and of the mask in Dataset (also run by C06: the mask is the root of every masked aggregate)."""
+    ix = ctx.ix
     ds = f"{PKG}.dataset"
-    cv = ix.func(ds, "Dataset._construct_values", "C14.R3")
+    cv = ix.func(ds, "Dataset._construct_values", rid)
     cc = Canon(cv.node)
     L = cc.lines(False, True)
     FILL = ["?v = torch.zeros(($0.n_individuals, $0.n_visits_max, $0.dimension))", "?pm = torch.zeros_like(?v)", "for (enumerate($0.n_visits_per_individual), (?i, ?n))",
             "?iv = torch.tensor(np.array($1[?i].observations), dtype=torch.float32)", "?v[?i, 0:?n, :] = ?iv", "?pm[?i, 0:?n, :] = 1.0", "$0.values = ?v"]
     FILL2 = FILL[:3] + ["?v[?i, 0:?n, :] = torch.tensor(np.array($1[?i].observations), dtype=torch.float32)", "?pm[?i, 0:?n, :] = 1.0", "$0.values = ?v"]
     b = unify(L, FILL) or unify(L, FILL2)
+    if b is None:
+        # near misses of the confirmed form are decided: same statements, another slice start or another fill constant
+        def gen(pats):
+            out = []
+            for x in pats:
+                x = x.replace("?v[?i, 0:?n, :]", "?v[?i, ?{lo}:?n, :]").replace("?pm[?i, 0:?n, :] = 1.0", "?pm[?i, ?{lo2}:?n, :] = ?{one}")
+                out.append(x)
+            return out
+        g_ = unify(L, gen(FILL)) or unify(L, gen(FILL2))
+        if g_ is not None and (g_["lo"] != "0" or g_["lo2"] != "0" or g_["one"] not in ("1.0", "1", "True")):
+            ctx.violation(rid, cv, cv.node, f"values are filled on rows `{g_['lo']}:nb_vis`, the padding mask on rows `{g_['lo2']}:nb_vis` with value `{g_['one']}` (rows 0:nb_vis and 1 expected): real visits are masked out, "
+                          "or the mask is not a 0/1 indicator (aggregates are weighted)", construct="aligned fill")
+            return
     has_tokens = any("isnan" in ln for ln in L) and any(".mask = " in ln for ln in L)
     if b is None:
-        ctx.anchor(False, "C14.R3", cv, cv.node, "values and padding mask filled on the same rows [i, 0:nb_vis, :]", "per-individual fill of values / padding mask", construct="aligned fill")
+        ctx.anchor(False, rid, cv, cv.node, "values and padding mask filled on the same rows [i, 0:nb_vis, :]", "per-individual fill of values / padding mask", construct="aligned fill")
     else:
-        ctx.ok("C14.R3", cv, cv.node, "values and padding mask filled on the same rows [i, 0:nb_vis, :]", construct="aligned fill")
+        ctx.ok(rid, cv, cv.node, "values and padding mask filled on the same rows [i, 0:nb_vis, :]", construct="aligned fill")
         vb = {k: b[k] for k in ("v", "pm")}
         filled = (unify(L, ["?pm[?i, 0:?n, :] = 1.0"], {k: b[k] for k in ("pm", "i", "n")}) or {"#0": 10 ** 6})["#0"]
         m = unify(L, ["?nn = (~torch.isnan(?v)).float()", "?m = ?pm * ?nn", "$0.mask = ?m"], vb) or unify(L, ["?m = ?pm * (~torch.isnan(?v)).float()", "$0.mask = ?m"], vb) \
             or unify(L, ["?nn = (~torch.isnan(?v)).float()", "?m = ?nn * ?pm", "$0.mask = ?m"], vb)
         z = unify(L, ["?v[torch.isnan(?v)] = 0.0"], vb) or unify(L, ["?v = torch.nan_to_num(?v...)"], vb)
         if m is None:
+            near = unify(L, ["?nn = (~torch.isnan(?v)).float()", "?m = ?pm ?{op} ?nn", "$0.mask = ?m"], vb) or unify(L, ["?nn = (~torch.isnan(?v)).float()", "?m = ?nn ?{op} ?pm", "$0.mask = ?m"], vb)
+            if near is not None and near["op"] in ("+", "-", "/", "|", "^", "//", "%"):
+                ctx.violation(rid, cv, cv.node, f"the dataset mask is `padding {near['op']} not-NaN`, not their product: padded or missing entries get a non-zero weight", construct="mask construction")
+                m = {"#0": near["#1"], "m": near["m"]}
+        if m is None:
             from ..astq import Inliner
             full = [Inliner(cv.node).text(st.value) for st in statements(cv.node) if isinstance(st, ast.Assign) and U(st.targets[0]) == "self.mask"]
             if full and "isnan" in full[0] and ("zeros_like" in full[0] or "padding" in full[0]):
-                ctx.unknown("C14.R3", cv, cv.node, "the construction of the dataset mask is neither the confirmed form nor lacks an essential part: cannot decide statically", construct="mask construction")
+                ctx.unknown(rid, cv, cv.node, "the construction of the dataset mask is neither the confirmed form nor lacks an essential part: cannot decide statically", construct="mask construction")
             else:
-                ctx.violation("C14.R3", cv, cv.node, "the dataset mask no longer combines the padding mask with the not-NaN mask: missing (or padded) entries count as observed", construct="mask construction")
+                ctx.violation(rid, cv, cv.node, "the dataset mask no longer combines the padding mask with the not-NaN mask: missing (or padded) entries count as observed", construct="mask construction")
         else:
-            ctx.check(filled < m["#0"], "C14.R3", cv, cv.node, "mask = padding mask * not-NaN, computed after the per-individual fill",
+            ctx.check(filled < m["#0"], rid, cv, cv.node, "mask = padding mask * not-NaN, computed after the per-individual fill",
                       "the not-NaN mask is computed before the values are filled in: every entry counts as observed", construct="mask construction")
-            ctx.check(z is not None and m["#0"] < z["#0"], "C14.R3", cv, cv.node, "NaNs zero-filled in the value tensor, after the not-NaN mask was taken",
+            ctx.check(z is not None and m["#0"] < z["#0"], rid, cv, cv.node, "NaNs zero-filled in the value tensor, after the not-NaN mask was taken",
                       "NaNs are no longer zero-filled in the value tensor (a NaN at a masked position would propagate), or are zero-filled before the mask is taken (missing entries count as observed)", construct="NaN zero-fill")
             c = unify(L, ["$0.n_observations_per_ind_per_ft = ?m.sum(dim=1).int()"], {"m": m["m"]})
-            ctx.check(c is not None, "C14.R3", cv, cv.node, "observation counts derive from the mask", "observation counts no longer derive from the mask", construct="counts from mask")
-    gv = ix.func(ds, "Dataset.get_values_patient", "C14.R3")
+            ctx.check(c is not None, rid, cv, cv.node, "observation counts derive from the mask", "observation counts no longer derive from the mask", construct="counts from mask")
+    gv = ix.func(ds, "Dataset.get_values_patient", rid)
     gl = Canon(gv.node).lines(True, True)
     IDX = "$1, :$0.n_visits_per_individual[$1]"
     ok = unify(gl, [f"?out = ?src[{IDX}, ...].clone().detach()", f"?out[$0.mask[{IDX}, :] == 0, ...] = float('nan')", "return ?out"]) is not None \
         or unify(gl, [f"?out = ?src[{IDX}, ...].detach().clone()", f"?out[$0.mask[{IDX}, :] == 0, ...] = float('nan')", "return ?out"]) is not None
     gs = " ".join(gl)
-    if ok:
-        ctx.ok("C14.R3", gv, gv.node, "NaN restored from the mask on a clone", construct="NaN restored from mask")
+    near = None if ok else (unify(gl, [f"?out = ?src[{IDX}, ...].clone().detach()", f"?out[$0.mask[{IDX}, :] ?{{op}} ?{{z}}, ...] = float('nan')", "return ?out"])
+                            or unify(gl, [f"?out = ?src[{IDX}, ...].detach().clone()", f"?out[$0.mask[{IDX}, :] ?{{op}} ?{{z}}, ...] = float('nan')", "return ?out"]))
+    if near is not None and (near["op"], near["z"]) not in (("==", "0"), ("==", "0.0"), ("<", "1"), ("!=", "1"), ("<=", "0")):
+        ctx.violation(rid, gv, gv.node, f"get_values_patient writes NaN where `mask {near['op']} {near['z']}` (mask == 0 expected): observed values are read back as missing and missing ones as zeros",
+                      construct="NaN restored from mask")
+    elif ok:
+        ctx.ok(rid, gv, gv.node, "NaN restored from the mask on a clone", construct="NaN restored from mask")
     elif "$0.mask" in gs and "nan" in gs and ("clone" in gs or "copy" in gs):
-        ctx.unknown("C14.R3", gv, gv.node, "get_values_patient is neither the confirmed form nor lacks an essential part: cannot decide statically", construct="NaN restored from mask")
+        ctx.unknown(rid, gv, gv.node, "get_values_patient is neither the confirmed form nor lacks an essential part: cannot decide statically", construct="NaN restored from mask")
     else:
-        ctx.violation("C14.R3", gv, gv.node, "get_values_patient no longer restores NaN from the mask on a copy (zero-filled values would be read back as observations, or the dataset modified)", construct="NaN restored from mask")
-    tp_ = ix.func(ds, "Dataset.to_pandas", "C14.R3")
+        ctx.violation(rid, gv, gv.node, "get_values_patient no longer restores NaN from the mask on a copy (zero-filled values would be read back as observations, or the dataset modified)", construct="NaN restored from mask")
+    tp_ = ix.func(ds, "Dataset.to_pandas", rid)
     src = U(tp_.node)
     ok = ".get_values_patient(" in src and "sort_index()" in src
-    ctx.check(ok, "C14.R3", tp_, tp_.node, "to_pandas uses the NaN-restored values and sorts the index", "to_pandas no longer uses the NaN-restored values / a sorted index", construct="to_pandas")
+    ctx.check(ok, rid, tp_, tp_.node, "to_pandas uses the NaN-restored values and sorts the index", "to_pandas no longer uses the NaN-restored values / a sorted index", construct="to_pandas")
 
 
 def r2b_infinite_time(ctx):
